@@ -444,7 +444,8 @@ fn max_content(cx: &Cx) -> usize {
 }
 
 pub fn run_c16(cx: &Cx) -> PropResult {
-    let per_shard = cx.n(2_000, 30_000);
+    // (thorough: 6 000 cases per shard, one in eleven of them 4-8 MiB: about half an hour of 16 cores in two profiles)
+    let per_shard = cx.n(2_000, 6_000);
     let max = max_content(cx);
     let acc = parallel(cx, &|shard, acc| {
         let strat = zcase_strategy(max);
